@@ -4,17 +4,17 @@
 # demo passes on the clean tree, fails with the change; the crate's own tests still pass with the change.
 set -u
 dir="$(readlink -f "$1")"; crate="$2"; dest="$3"; tname="$4"; shift 4
-base=/var/tmp/vs-seed
-[ -d "$base/repo" ] || /verif/tools/scratch.sh new seed >/dev/null
-cd "$base/repo" && git checkout -q -- . && git clean -qfd -e target && git checkout -q --detach "$(git -C /repo rev-parse HEAD)" || exit 3
+base=/var/tmp/vs-verify
+if [ ! -d "$base/repo" ]; then mkdir -p "$base"; git -C /repo worktree add --detach "$base/repo" HEAD >/dev/null || exit 3; fi
+cd "$base/repo" && git reset -q --hard && git clean -qfd -e target && git checkout -q --detach "$(git -C /repo rev-parse HEAD)" || exit 3
 mkdir -p "$(dirname "$dest")"; cp "$dir/demo.rs" "$dest"
-cargo test --offline -p "$crate" --test "$tname" >"$dir/lead_demo_clean.log" 2>&1; a=$?
+cargo test --offline -p "$crate" ${SEEDV_ARGS:-} --test "$tname" >"$dir/lead_demo_clean.log" 2>&1; a=$?
 git apply "$dir/patch.diff" 2>/dev/null || git apply --3way "$dir/patch.diff" 2>/dev/null && git reset -q || { echo "PATCH DOES NOT APPLY"; exit 3; }
-cargo test --offline -p "$crate" --test "$tname" >"$dir/lead_demo_changed.log" 2>&1; b=$?
+cargo test --offline -p "$crate" ${SEEDV_ARGS:-} --test "$tname" >"$dir/lead_demo_changed.log" 2>&1; b=$?
 rm -f "$dest"
 if [ $# -eq 0 ]; then set -- -p "$crate"; fi
 cargo test --offline "$@" >"$dir/lead_existing_tests.log" 2>&1; c=$?
-git checkout -q -- . ; git clean -qfd -e target
+git reset -q --hard ; git clean -qfd -e target
 echo "demo_clean_exit=$a demo_changed_exit=$b existing_tests_exit=$c"
 grep -h "test result" "$dir/lead_demo_clean.log" | head -2; grep -h "test result" "$dir/lead_demo_changed.log" | head -2; grep -h "test result" "$dir/lead_existing_tests.log" | head -4
 [ $a -eq 0 ] && [ $b -ne 0 ] && [ $c -eq 0 ]
